@@ -123,27 +123,46 @@ def run(ctx):
     chk.ob('L2', 'message-size-matches-buffer', size is not None and cap is not None and size == cap, gc.where(), A.name,
            'generateFromFormat is told the message buffer has %s bytes, it has %s' % (size, cap))
     # in G the message parameter is only written through the bounded append with the size parameter
-    p0, p1 = G.params[0]['id'], G.params[1]['id']
-    pt = PtrTaint(G, lambda n: False, {p0})
-    direct = list(pt.stores())
-    other = []
-    for call, i, a in pt.pointer_args():
-        name = call.get('callee')
-        if name == APPEND and i == 0:
-            s2 = decl_of(arg(call, 1))
-            if not (s2 is not None and s2['id'] == p1):
-                other.append(call)
-            continue
-        ptypes = call.get('calleeParamTypes') or []
-        pty = ptypes[i] if i < len(ptypes) else ''
-        from engine.statics import _pointee_const
-        if not _pointee_const(pty):
-            other.append(call)
+    from engine.statics import _pointee_const
+    helpers = []
+
+    def writes_outside_append(F, p0, p1, depth=0):
+        """stores to / writable escapes of the buffer `p0` of F other than APPEND(p0, p1, ...); a
+        callee of this program that receives (buffer, size) is followed (same rule, its parameters)"""
+        pt = PtrTaint(F, lambda n: False, {p0})
+        bad_ = list(pt.stores())
+        for call, i, a in pt.pointer_args():
+            name = call.get('callee')
+            if name == APPEND and i == 0:
+                s2 = decl_of(arg(call, 1))
+                if not (s2 is not None and s2['id'] == p1):
+                    bad_.append(call)
+                continue
+            ptypes = call.get('calleeParamTypes') or []
+            pty = ptypes[i] if i < len(ptypes) else ''
+            if _pointee_const(pty):
+                continue
+            H = prog.func(name, F.tu) if name else None
+            if H is not None and depth < 3 and not call.get('calleeVariadic'):
+                # which argument carries the size?
+                js = [j for j in range(len(H.params)) if j != i and (decl_of(arg(call, j)) or {}).get('id') == p1]
+                if js and i < len(H.params):
+                    sub = writes_outside_append(H, H.params[i]['id'], H.params[js[0]]['id'], depth + 1)
+                    if not sub:
+                        helpers.append(H.name)
+                        continue
+                    bad_ += sub
+                    continue
+            bad_.append(call)
+        return bad_
+    direct = []
+    other = writes_outside_append(G, G.params[0]['id'], G.params[1]['id'])
     chk.ob('L2', 'message-only-extended-by-bounded-append', not direct and not other,
            (direct + other)[0].where() if (direct + other) else G.where(), G.name,
            'the message buffer is written other than through %s(message, size, ...): %s' % (
                APPEND, render((direct + other)[0]) if (direct + other) else ''),
-           how='%d append calls, no direct store, no other writable escape' % len(G.calls(APPEND)))
+           how='%d append calls, no direct store, no other writable escape%s' % (
+               len(G.calls(APPEND)), (' (helpers followed: %s)' % ', '.join(sorted(set(helpers)))) if helpers else ''))
     # append -> string_append(dest, size, text) pass-through, and the guard of string_append
     AP = prog.require_func(APPEND)
     sa = AP.calls(STRAPPEND)
